@@ -56,6 +56,11 @@ def snap(obj, depth=0, memo=None):
         )
     if is_shell(obj):
         return shell_snap(obj, depth, memo)
+    if hasattr(obj, "read") and hasattr(obj, "tell"):  # a stream the user owns: its position is part of its state
+        try:
+            return ("stream", type(obj).__name__, obj.tell(), bool(getattr(obj, "closed", False)))
+        except (OSError, ValueError):
+            return ("stream", type(obj).__name__, "closed")
     if hasattr(obj, "__dict__"):
         d = vars(obj)
         return (
@@ -100,7 +105,7 @@ def shell_snap(sh, depth=0, memo=None):
 
 def shell_private_attrs(sh):
     """Names of instance attributes other than the documented ones (probe only)."""
-    known = {"_angmom", "_coord", "_coeffs", "_exps", "_coord_type", "_icenter", "norm_cont"}
+    known = {"_angmom", "_coord", "_coeffs", "_exps", "_coord_type", "_icenter", "norm_cont", "variant"}
     return tuple(sorted(k for k in vars(sh).keys() if k not in known))
 
 
